@@ -347,6 +347,28 @@ fn main() {
         Some("a85hex") => cmd_a85hex(args.get(2).and_then(|s| s.parse().ok()).unwrap_or(5)),
         Some("a85hex-roundtrip") => cmd_a85hex_roundtrip(args.get(2).and_then(|s| s.parse().ok()).unwrap_or(4)),
         Some("fmt") => cmd_fmt(),
+        Some("rotate") => {
+            // rotate <Rotate value>: minimal one-page PDF with that /Rotate, then rotate_all_pages(.., Clockwise90)
+            let rot = args[2].clone();
+            let mut pdf: Vec<u8> = b"%PDF-1.4\n".to_vec();
+            let mut offs = vec![];
+            let objs = vec![
+                "1 0 obj\n<< /Type /Catalog /Pages 2 0 R >>\nendobj\n".to_string(),
+                "2 0 obj\n<< /Type /Pages /Kids [3 0 R] /Count 1 >>\nendobj\n".to_string(),
+                format!("3 0 obj\n<< /Type /Page /Parent 2 0 R /MediaBox [0 0 200 200] /Rotate {rot} >>\nendobj\n"),
+            ];
+            for o in &objs { offs.push(pdf.len()); pdf.extend_from_slice(o.as_bytes()); }
+            let xref = pdf.len();
+            pdf.extend_from_slice(b"xref\n0 4\n0000000000 65535 f \n");
+            for o in &offs { pdf.extend_from_slice(format!("{:010} 00000 n \n", o).as_bytes()); }
+            pdf.extend_from_slice(format!("trailer\n<< /Size 4 /Root 1 0 R >>\nstartxref\n{xref}\n%%EOF\n").as_bytes());
+            let dir = std::env::temp_dir();
+            let inp = dir.join("verif_rotate_in.pdf"); let out = dir.join("verif_rotate_out.pdf");
+            std::fs::write(&inp, &pdf).unwrap();
+            let r = panic::catch_unwind(|| oxidize_pdf::operations::rotate::rotate_all_pages(&inp, &out, oxidize_pdf::operations::rotate::RotationAngle::Clockwise90).map_err(|e| e.to_string()));
+            let _ = std::fs::remove_file(&inp); let _ = std::fs::remove_file(&out);
+            println!("{{\"cmd\":\"rotate\",\"rotate\":{},\"result\":{}}}", js(&rot), js(&format!("{:?}", r.map_err(|_| "PANIC"))));
+        }
         Some("content") => cmd_content(args.get(2).and_then(|s| s.parse().ok()).unwrap_or(2)),
         Some("xrefstm") => {
             // xrefstm <w0> <w1> <w2> <first> <count> <datalen>: run XRefStream::parse + to_xref_entries on a synthetic stream dictionary
